@@ -338,6 +338,41 @@ func checkReadMethod(c *Checker, rg *Ranger, fn *ssa.Function) {
 				fmt.Sprintf("%s is overwritten (whole message: %v, only when empty: %v): unread bytes are dropped or a message is stored partially", F.Name(), whole, empty))
 		}
 	}
+	// the delegated buffer (a bytes.Buffer field of the receiver) holds the not yet delivered rest of
+	// the stream: the Read method only appends to it, serves from it and asks for its length - it
+	// never replaces, resets or truncates it (not even "to give the memory back": the unread tail
+	// would be dropped without an error)
+	allInstrs(fn, func(in ssa.Instruction) {
+		isBufField := func(v ssa.Value) (*types.Var, bool) {
+			fa, ok := v.(*ssa.FieldAddr)
+			if !ok || fa.X != recv {
+				return nil, false
+			}
+			f := structFieldOf(fa)
+			if nn := namedOf(f.Type()); nn != nil && nn.Obj().Pkg() != nil && nn.Obj().Pkg().Path() == "bytes" && nn.Obj().Name() == "Buffer" {
+				return f, true
+			}
+			return nil, false
+		}
+		switch x := in.(type) {
+		case *ssa.Store:
+			if f, ok := isBufField(x.Addr); ok {
+				c.fail("RDC-2", fmt.Sprintf("%s|buffer %s is never replaced", name, f.Name()), instrPos(x), f.Name()+" is overwritten as a whole in "+name+": whatever was not yet delivered from it is dropped silently")
+			}
+		case *ssa.Call:
+			sc := x.Common().StaticCallee()
+			if sc == nil || sc.Signature.Recv() == nil || len(x.Common().Args) == 0 {
+				return
+			}
+			if f, ok := isBufField(x.Common().Args[0]); ok {
+				switch sc.Name() {
+				case "Write", "Read", "Len", "Cap", "Available":
+				default:
+					c.fail("RDC-2", fmt.Sprintf("%s|buffer %s is only appended to and served from|%s", name, f.Name(), sc.Name()), instrPos(x), name+" calls "+f.Name()+"."+sc.Name()+": the undelivered rest of the stream can be discarded or re-read")
+				}
+			}
+		}
+	})
 	// delegated buffer: a received message flows whole into the buffer
 	allInstrs(fn, func(in ssa.Instruction) {
 		call, ok := in.(*ssa.Call)
